@@ -82,6 +82,12 @@ func (e *Eng) evalSpec(st *State, x *SExpr, env map[string]*Val, old map[string]
 				default:
 					eq = fmt.Sprintf("(= %s 0)", o.T)
 				}
+			case l.Sort == "Str" && r.Sort == "Str" && (l.T == e.strLit("") || r.T == e.strLit("")):
+				o := l
+				if l.T == e.strLit("") {
+					o = r
+				}
+				eq = fmt.Sprintf("(= (slen %s) 0)", o.T)
 			case l.Sort == "Slice" && r.Sort == "Slice":
 				eq = fmt.Sprintf("(and (= %s %s) (= %s %s) (= %s %s))", l.Elems[0].T, r.Elems[0].T, l.Elems[1].T, r.Elems[1].T, l.Elems[2].T, r.Elems[2].T)
 			case l.Sort == "Iface" && r.Sort != "Iface":
@@ -199,6 +205,10 @@ func (e *Eng) evalSpec(st *State, x *SExpr, env map[string]*Val, old map[string]
 				}
 				for _, a := range x.Args[1:] {
 					flat(e.evalSpec(st, a, env, old))
+				}
+				if sig, ok := e.contracts.SpecSigs[fn.Name]; ok {
+					e.declareOnce(fmt.Sprintf("(declare-fun spec_%s (%s) %s)", fn.Name, sig[0], sig[1]))
+					return scalar(fmt.Sprintf("(spec_%s %s)", fn.Name, strings.Join(args, " ")), sig[1], nil)
 				}
 				rs := "Int"
 				for _, q := range e.decls {
